@@ -234,10 +234,18 @@ Definition s_cmd_test := Eval vm_compute in s2b "test".
 Fixpoint has_suffix (suf s : str) : bool :=
   beq suf s || match s with [] => false | _ :: r => has_suffix suf r end.
 
+Definition s_cmd_run := Eval vm_compute in s2b "run".
+Fixpoint take_go_files (l : list str) : list str :=
+  match l with p :: r => if has_suffix s_dot_go p then p :: take_go_files r else [] | [] => [] end.
+
 (* appendListedPackages(args, true): the `go list` argv for the top-level build *)
 Definition list_args (gbf : list str) (fwd : list (str * bool)) (bools : list str)
            (command : str) (linknamed : list str) (argv : list str) : list str :=
-  let '(flags, pkgs) := split_flags bools argv in
+  let '(flags, pkgs0) := split_flags bools argv in
+  (* "go run" takes one package or a list of .go files; what follows are the program's arguments *)
+  let pkgs := if beq command s_cmd_run
+              then match take_go_files pkgs0 with [] => firstn 1 pkgs0 | fs => fs end
+              else pkgs0 in
   let forward := fst (filter_forward fwd bools flags) ++ (if beq command s_cmd_test then [s_test_flag] else []) in
   let file_mode := match pkgs with p :: _ => has_suffix s_dot_go p | [] => false end in
   let pkgs' := if file_mode then pkgs else (match pkgs with [] => [s_dot] | _ => pkgs end) ++ linknamed in
